@@ -31,8 +31,22 @@ func EncodeRawXMLElement(v interface{}) (*RawXMLValue, error) {
 	return &RawXMLValue{out: v}, nil
 }
 
+// maxRawXMLDepth is the maximum element nesting depth accepted when capturing
+// a raw XML value. It matches the limit encoding/xml applies to its own
+// decoding and keeps the recursion below from exhausting the stack on
+// hostile input.
+const maxRawXMLDepth = 10000
+
 // UnmarshalXML implements xml.Unmarshaler.
 func (val *RawXMLValue) UnmarshalXML(d *xml.Decoder, start xml.StartElement) error {
+	return val.unmarshalXML(d, start, 0)
+}
+
+func (val *RawXMLValue) unmarshalXML(d *xml.Decoder, start xml.StartElement, depth int) error {
+	if depth >= maxRawXMLDepth {
+		return fmt.Errorf("webdav: XML element nesting exceeds the maximum depth of %d", maxRawXMLDepth)
+	}
+
 	val.tok = start
 	val.children = nil
 	val.out = nil
@@ -45,7 +59,7 @@ func (val *RawXMLValue) UnmarshalXML(d *xml.Decoder, start xml.StartElement) err
 		switch tok := tok.(type) {
 		case xml.StartElement:
 			child := RawXMLValue{}
-			if err := child.UnmarshalXML(d, tok); err != nil {
+			if err := child.unmarshalXML(d, tok, depth+1); err != nil {
 				return err
 			}
 			val.children = append(val.children, child)
